@@ -727,7 +727,7 @@ def run_pipeline(run, programs, tmpdir, mon):
     try:
         for pi, (pname, src) in enumerate(programs):
             for oi, (recursive, feats) in enumerate(osets):
-                if pname.startswith('gen:') and oi >= 2 and run.tier == 'quick' and pi % 2:
+                if pname.startswith('gen:') and oi >= 2 and run.tier == 'quick':
                     continue
                 api._TRANSPILER = Capture()
                 del captured[:]
@@ -1010,7 +1010,7 @@ def _check(run, tmpdir):
         failures = run_pipeline(run, programs, tmpdir, mon)
         pipeline_calls = list(mon.calls)
         del mon.calls[:]
-        syn_calls, acases, pcases = synthetic_cases(rnd, 120 if quick else 600, 250 if quick else 1500,
+        syn_calls, acases, pcases = synthetic_cases(rnd, 100 if quick else 600, 160 if quick else 1500,
                                                     100 if quick else 500, mon)
     finally:
         mon.uninstall()
@@ -1039,7 +1039,7 @@ def _check(run, tmpdir):
         else:
             rest.append(rec)
     rnd.shuffle(rest)
-    budget = 320 if quick else 3000
+    budget = 220 if quick else 3000
     sel = sel[:budget] + rest[:max(0, budget - len(sel))]
     icases = []
     imeta = {}
@@ -1056,7 +1056,7 @@ def _check(run, tmpdir):
     for rec in sel[:200]:
         roots_for_ctx += [n for n in rec['result'] if isinstance(n, ast.stmt)][:2]
     roots_for_ctx += [ast.parse(src).body[0] for _, src in programs[:60]]   # the parser's own output: always consistent
-    ccases = ctx_cases(rnd, roots_for_ctx, 150 if quick else 800)
+    ccases = ctx_cases(rnd, roots_for_ctx, 100 if quick else 800)
 
     corr_bad = []
     unguarded = []
